@@ -237,8 +237,8 @@ static Profile profile(const std::string& name, bool T) {
         p = profile("rotate", T); p.runs = {{"", S_FILE, 2}, {"", S_FD, 2}}; p.alphabet = {"qr0", "aec0", "mm0", "wb", "rotx", "rotn", "rots", "addbp", "act1"}; p.depth_q = 2; p.depth_t = 3;
     } else if (name == "roundtrip") {
         p.alphabet = {"qr0", "qr1s1", "qr2", "qr3s2", "qr4", "qr6", "aec0", "aec1s1", "aec1s2", "aec2", "mm0", "mm1s2", "mm3", "wb", "act0", "act1", "rotx"};
-        for (int h : {0, 3, 2, 5}) for (uint64_t tps : {1ULL, 1000ULL, 1000000ULL, 1000000000ULL}) for (uint64_t m : {1, 2, 3, 10000}) {
-            if (!T && !((h == 0) || (tps == 1000000 && m == 2) || (h == 3 && tps == 1 && m == 3) || (h == 5 && tps == 1000000000 && m == 10000))) continue;
+        for (int h : {0, 3, 2, 5, 6, 7}) for (uint64_t tps : {1ULL, 1000ULL, 1000000ULL, 1000000000ULL}) for (uint64_t m : {1, 2, 3, 10000}) {   // 6, 7: hint words that keep every other member (the two words differ in every bit)
+            if (!T && !((h == 0) || (tps == 1000000 && m == 2) || (h == 3 && tps == 1 && m == 3) || (h == 5 && tps == 1000000000 && m == 10000) || (h == 6 && tps == 1000 && m == 3) || (h == 7 && tps == 1000000 && m == 10000))) continue;
             p.cfgs.push_back({"h" + std::to_string(h) + "_t" + std::to_string(tps) + "_m" + std::to_string(m), {PS(m, tps, h, m == 2), PS(m == 1 ? 2 : 1, tps == 1000 ? 1000000 : 1000, h == 0 ? 3 : 0)}, PS(2, 1000, 0)});
         }
         p.runs = {{"", S_MEM, 0}}; p.depth_q = 3; p.depth_t = 4;
